@@ -123,3 +123,139 @@ pub fn format_frame_raw(ctrl: u8, dst: u16, src: u16, payload: Option<(u8, &[u8]
     };
     res.ok().map(|f| f.frame.to_vec())
 }
+
+// ------------------------------------------------------------------------------------------
+// transport probe: the real `transport::real::reader::Reader` (link layer + assembler) and
+// `transport::real::writer::Writer` over the pipe
+// ------------------------------------------------------------------------------------------
+pub struct TransportProbe {
+    reader: crate::transport::real::reader::Reader,
+    writer: crate::transport::real::writer::Writer,
+    io: PhysLayer,
+    peer: tokio::io::DuplexStream,
+    dead: bool,
+}
+
+impl TransportProbe {
+    pub fn new(master: bool, self_address: bool, local: u16, rx: usize, discard: bool, datagram: bool) -> Self {
+        let (a, b) = tokio::io::duplex(1 << 20);
+        let modes = LinkModes {
+            error_mode: if discard { LinkErrorMode::Discard } else { LinkErrorMode::Close },
+            read_mode: if datagram { LinkReadMode::Datagram } else { LinkReadMode::Stream },
+        };
+        let addr = crate::link::EndpointAddress::raw(local);
+        let reader = if master {
+            crate::transport::real::reader::Reader::master(modes, addr, rx)
+        } else {
+            let f = if self_address { crate::outstation::Feature::Enabled } else { crate::outstation::Feature::Disabled };
+            crate::transport::real::reader::Reader::outstation(modes, addr, f, rx)
+        };
+        let et = if master { crate::app::EndpointType::Master } else { crate::app::EndpointType::Outstation };
+        Self {
+            reader,
+            writer: crate::transport::real::writer::Writer::new(et, addr),
+            io: PhysLayer::Pipe(a),
+            peer: b,
+            dead: false,
+        }
+    }
+
+    async fn drain_peer(&mut self) -> Vec<u8> {
+        use tokio::io::AsyncReadExt;
+        let mut all = Vec::new();
+        let mut buf = [0u8; 4096];
+        loop {
+            match poll_once(self.peer.read(&mut buf)).await {
+                Some(Ok(n)) if n > 0 => all.extend_from_slice(&buf[..n]),
+                _ => break,
+            }
+        }
+        all
+    }
+
+    fn push_replies(out: &mut Vec<String>, bytes: &[u8]) {
+        // link replies are always 10-octet header-only frames
+        for c in bytes.chunks(10) {
+            out.push(format!("reply {}", hex(c)));
+        }
+    }
+
+    pub fn reset(&mut self) {
+        self.reader.reset();
+        self.writer.reset();
+        self.dead = false;
+    }
+
+    pub async fn feed(&mut self, chunk: &[u8], double_read: bool) -> Vec<String> {
+        use tokio::io::AsyncWriteExt;
+        let mut out = Vec::new();
+        if self.dead {
+            return out;
+        }
+        self.peer.write_all(chunk).await.unwrap();
+        loop {
+            let res = poll_once(self.reader.read(&mut self.io, DecodeLevel::nothing())).await;
+            let r = self.drain_peer().await;
+            Self::push_replies(&mut out, &r);
+            match res {
+                None => break,
+                Some(Err(e)) => {
+                    out.push(format!("err {}", link_error_str(&e)));
+                    self.dead = true;
+                    break;
+                }
+                Some(Ok(())) => {
+                    if double_read {
+                        let _ = poll_once(self.reader.read(&mut self.io, DecodeLevel::nothing())).await;
+                        let r = self.drain_peer().await;
+                        Self::push_replies(&mut out, &r);
+                    }
+                    match self.reader.pop() {
+                        Some(crate::transport::TransportData::Fragment(f)) => {
+                            let bc = match f.info.broadcast {
+                                None => "-".to_string(),
+                                Some(crate::link::header::BroadcastConfirmMode::Optional) => "0".to_string(),
+                                Some(crate::link::header::BroadcastConfirmMode::Mandatory) => "1".to_string(),
+                                Some(crate::link::header::BroadcastConfirmMode::NotRequired) => "2".to_string(),
+                            };
+                            out.push(format!("frag {} {} {} {}", f.info.id, f.info.addr.link.raw_value(), bc, hex(f.data)));
+                        }
+                        Some(crate::transport::TransportData::LinkLayerMessage(m)) => {
+                            let k = match m.message {
+                                crate::transport::LinkLayerMessageType::LinkStatusRequest => "req",
+                                crate::transport::LinkLayerMessageType::LinkStatusResponse => "resp",
+                            };
+                            out.push(format!("linkmsg {} {}", m.source.raw_value(), k));
+                        }
+                        None => out.push("pop-none".to_string()),
+                    }
+                }
+            }
+        }
+        out
+    }
+
+    /// `Writer::write` of one fragment starting at the writer's current sequence number;
+    /// returns the link frames written (split on frame boundaries by their length octet)
+    pub async fn write(&mut self, dest: u16, fragment: &[u8]) -> Result<Vec<Vec<u8>>, String> {
+        let addr = crate::transport::FragmentAddr {
+            link: crate::link::EndpointAddress::raw(dest),
+            phys: crate::util::phys::PhysAddr::None,
+        };
+        let res = self.writer.write(&mut self.io, DecodeLevel::nothing(), addr, fragment).await;
+        let bytes = self.drain_peer().await;
+        if let Err(e) = res {
+            return Err(link_error_str(&e));
+        }
+        let mut frames = Vec::new();
+        let mut i = 0;
+        while i + 10 <= bytes.len() {
+            let dl = bytes[i + 2] as usize - 5;
+            let trailer = (dl / 16) * 18 + if dl % 16 == 0 { 0 } else { dl % 16 + 2 };
+            let end = (i + 10 + trailer).min(bytes.len());
+            frames.push(bytes[i..end].to_vec());
+            i = end;
+        }
+        Ok(frames)
+    }
+}
